@@ -162,6 +162,13 @@ let handle (line : string) : bool =
                          String.concat " " (List.map (fun (n, v) -> "(" ^ string_of_int (int_of_z n) ^ " " ^ show_rval v ^ ")") k) ^ ")\n")
        | _ -> print_string "error r.call syntax\n");
       true
+  | "k.validate" ->
+      (match parse_all rest with
+       | [sg; cl] ->
+           let sg' = sig_of_sx sg and cl' = call_of_sx cl in
+           print_string ((if validate_ok sg' cl' then "1" else "0") ^ " " ^ (if bind_ok sg' cl' then "1" else "0") ^ "\n")
+       | _ -> print_string "error k.validate syntax\n");
+      true
   | "k.eq" ->
       (match parse_all rest with
        | [a; b] -> print_string (if py_eqb (val_of_sx a) (val_of_sx b) then "1\n" else "0\n")
